@@ -454,7 +454,7 @@ fn use_policy(attrs: &[Attribute]) -> Out<Vec<u8>> {
             conditions: vec![table::Condition::AsPathLength(table::Comparison::Ge, 0)],
             disposition: None,
             actions: table::Actions {
-                as_prepend: Some(table::AsPrependAction { asn: 65000, repeat: 1, use_left_most: true }),
+                as_prepend: Some(table::AsPrependAction { asn: 65000, repeat: 1, use_left_most: false }),
                 ..Default::default()
             },
         };
@@ -773,7 +773,28 @@ fn x_fail(why: &str) -> String {
     format!("(x fail {})", why)
 }
 
-fn explore_attr(code: u8, flags: u8, val: &[u8]) -> String {
+/// how a re-imported value differs from the stored one (distinct oracle clauses per defect kind)
+fn diff_class(orig: &[u8], back: &[u8]) -> &'static str {
+    if back.len() > orig.len() {
+        "roundtrip-longer"
+    } else if back.len() < orig.len() {
+        "roundtrip-shorter"
+    } else {
+        let (mut a, mut b) = (orig.to_vec(), back.to_vec());
+        a.sort();
+        b.sort();
+        if a == b { "roundtrip-reordered" } else { "roundtrip-changed" }
+    }
+}
+
+fn dbg() -> bool {
+    std::env::var("VERIF_C17_DEBUG").is_ok()
+}
+
+/// `exact`: pristine fixture, the round trip must be the identity.  Otherwise (mutated fixture, possibly
+/// carrying TLVs the API has no message for) only safety and display stability are required:
+/// no panic, the value is accepted back, and a second round trip changes nothing more.
+fn explore_attr(code: u8, flags: u8, val: &[u8], exact: bool) -> String {
     let a = match decode_attr(code, flags, val) {
         Decoded::Stored(a) => a,
         _ => return "(x ok)".into(),
@@ -782,23 +803,45 @@ fn explore_attr(code: u8, flags: u8, val: &[u8]) -> String {
         Out::Ok(x) => x,
         _ => return x_fail("to-api-panics"),
     };
-    if std::env::var("VERIF_C17_DEBUG").is_ok() {
+    if dbg() {
         eprintln!("explore attr {:?}\n  api {:?}", a, api);
     }
-    match guard_res(move || convert::attr_from_api(api)) {
-        Out::Ok(b) => {
-            if b != a {
-                if std::env::var("VERIF_C17_DEBUG").is_ok() {
-                    eprintln!("  back {:?}", b);
-                }
-                if b.code() == a.code() && b.binary() == a.binary() && b.value() == a.value() {
-                    return x_fail("roundtrip-flags-differ");
-                }
-                return x_fail("roundtrip-value-differs");
-            }
-        }
-        Out::Err => return x_fail("roundtrip-value-rejected"),
+    let b = match guard_res(move || convert::attr_from_api(api)) {
+        Out::Ok(b) => b,
+        // a mutated value may be one the (lax) wire decoder keeps but the API boundary refuses: not unsafe
+        Out::Err => return if exact { x_fail("roundtrip-value-rejected") } else { "(x ok)".into() },
         Out::Panic => return x_fail("from-api-panics"),
+    };
+    if dbg() && b != a {
+        eprintln!("  back {:?}", b);
+    }
+    if exact {
+        if b != a {
+            if b.code() == a.code() && b.binary() == a.binary() && b.value() == a.value() {
+                return x_fail("roundtrip-flags-differ");
+            }
+            return match (a.binary(), b.binary()) {
+                (Some(x), Some(y)) => x_fail(diff_class(x, y)),
+                _ => x_fail("roundtrip-changed"),
+            };
+        }
+    } else {
+        let api2 = match guard(|| convert::attr_to_api(&b)) {
+            Out::Ok(x) => x,
+            _ => return x_fail("to-api-panics-on-reimported"),
+        };
+        match guard_res(move || convert::attr_from_api(api2)) {
+            Out::Ok(c) => {
+                if c != b {
+                    return x_fail("display-not-stable");
+                }
+            }
+            Out::Err => return x_fail("reimported-value-rejected"),
+            Out::Panic => return x_fail("from-api-panics"),
+        }
+        if use_t(&b).1 {
+            return x_fail("reimported-value-crashes-consumer");
+        }
     }
     if use_t(&a).1 {
         return x_fail("value-crashes-consumer");
@@ -806,7 +849,7 @@ fn explore_attr(code: u8, flags: u8, val: &[u8]) -> String {
     "(x ok)".into()
 }
 
-fn explore_nlri(afi: u16, safi: u8, bytes: &[u8]) -> String {
+fn explore_nlri(afi: u16, safi: u8, bytes: &[u8], exact: bool) -> String {
     let family = Family::new(afi, safi);
     let entries = match decode_nlris(family, bytes) {
         Out::Ok(e) => e,
@@ -819,27 +862,55 @@ fn explore_nlri(afi: u16, safi: u8, bytes: &[u8]) -> String {
             Out::Ok(x) => x,
             _ => return x_fail("to-api-panics"),
         };
-        if std::env::var("VERIF_C17_DEBUG").is_ok() {
+        if dbg() {
             eprintln!("explore nlri {:?}\n  api {:?}", n, api);
         }
-        match guard_res(move || convert::net_from_api(api, family)) {
-            Out::Ok(b) => {
-                if b != n {
-                    if std::env::var("VERIF_C17_DEBUG").is_ok() {
-                        eprintln!("  back {:?}", b);
-                    }
-                    return x_fail("roundtrip-value-differs");
+        let b = match guard_res(move || convert::net_from_api(api, family)) {
+            Out::Ok(b) => b,
+            Out::Err => {
+                if exact {
+                    return x_fail("roundtrip-value-rejected");
                 }
+                continue;
             }
-            Out::Err => return x_fail("roundtrip-value-rejected"),
             Out::Panic => return x_fail("from-api-panics"),
+        };
+        if dbg() && b != n {
+            eprintln!("  back {:?}", b);
         }
-        if matches!(guard(|| n.encode_to_bytes()), Out::Panic) {
-            return x_fail("value-crashes-encode");
+        let enc_n = match guard(|| n.encode_to_bytes()) {
+            Out::Ok(x) => x,
+            _ => return x_fail("value-crashes-encode"),
+        };
+        let enc_b = match guard(|| b.encode_to_bytes()) {
+            Out::Ok(x) => x,
+            _ => return x_fail("reimported-value-crashes-encode"),
+        };
+        if exact {
+            if b != n {
+                return x_fail(diff_class(&enc_n, &enc_b));
+            }
+        } else {
+            let api2 = match guard(|| convert::nlri_to_api(&b)) {
+                Out::Ok(x) => x,
+                _ => return x_fail("to-api-panics-on-reimported"),
+            };
+            match guard_res(move || convert::net_from_api(api2, family)) {
+                Out::Ok(c) => {
+                    if c != b {
+                        return x_fail("display-not-stable");
+                    }
+                }
+                Out::Err => return x_fail("reimported-value-rejected"),
+                Out::Panic => return x_fail("from-api-panics"),
+            }
         }
         let attrs = vec![origin_igp(), base_as_path()];
         if matches!(use_cmp(&attrs, family, &n), Out::Panic) {
             return x_fail("value-crashes-table-insert");
+        }
+        if matches!(use_cmp(&attrs, family, &b), Out::Panic) {
+            return x_fail("reimported-value-crashes-table-insert");
         }
     }
     "(x ok)".into()
@@ -951,16 +1022,17 @@ fn run_case(line: &str) -> String {
             if bytes.len() > 3000 {
                 return BAD_CASE.into();
             }
-            if kind.starts_with("attr-") {
+            // `attr-`/`nlri-`: pristine fixture (exact round trip); `mattr-`/`mnlri-`: mutated fixture
+            if kind.starts_with("attr-") || kind.starts_with("mattr-") {
                 if a > 255 || b > 255 || (b & 0x10 == 0 && bytes.len() > 255) {
                     return BAD_CASE.into();
                 }
-                explore_attr(a as u8, b as u8, &bytes)
-            } else if kind.starts_with("nlri-") {
+                explore_attr(a as u8, b as u8, &bytes, kind.starts_with("attr-"))
+            } else if kind.starts_with("nlri-") || kind.starts_with("mnlri-") {
                 if a > 65535 || b > 255 {
                     return BAD_CASE.into();
                 }
-                explore_nlri(a as u16, b as u8, &bytes)
+                explore_nlri(a as u16, b as u8, &bytes, kind.starts_with("nlri-"))
             } else {
                 BAD_CASE.into()
             }
